@@ -347,6 +347,12 @@ func (agg *aggregate) add(l *wline) {
 		return
 	}
 	for k, v := range o.Counters {
+		if strings.HasPrefix(k, "max.") { // high-water marks, not sums
+			if v > agg.counters[k] {
+				agg.counters[k] = v
+			}
+			continue
+		}
 		agg.counters[k] += v
 	}
 	if o.Nontrivial {
